@@ -445,11 +445,26 @@ func c15genCase(r *rand.Rand, thorough bool) (string, string) {
 	if thorough && r.Intn(4) == 0 {
 		nEv = 150 + r.Intn(250)
 	}
-	mode := []int{0, 0, 0, 1, 1, 1, 2, 2, 2, 3, 3, 3, 4}[r.Intn(13)]
-	modeName := []string{"sec", "dyadic", "frac", "refillunit", "unsorted"}[mode]
+	mode := []int{0, 0, 0, 1, 1, 1, 2, 2, 2, 3, 3, 3, 4, 5, 5, 5, 6}[r.Intn(17)]
+	modeName := []string{"sec", "dyadic", "frac", "refillunit", "unsorted", "delayed", "delayed-dyadic"}[mode]
+	// modes 5, 6: callers that are delayed between time.Now() and the bucket lock: a few streams, each
+	// late by its own delay (0 .. 2 s), interleaved; the time stamps reach the limiter out of order
+	var delays []int64
+	if mode >= 5 {
+		for i := 0; i < 2+r.Intn(3); i++ {
+			d := []int64{0, 1_000_000, 5_000_000, 50_000_000, 100_000_000, 500_000_000, 1_000_000_000, 2_000_000_000}[r.Intn(8)]
+			if mode == 6 {
+				d = int64(r.Intn(2048)) * 1953125
+			} else if r.Intn(2) == 0 {
+				d = r.Int63n(2_000_000_000)
+			}
+			delays = append(delays, d)
+		}
+		delays[r.Intn(len(delays))] = 0
+	}
 	// gc passes (at one instant) in every third ordered case
 	gcIdx := -1
-	if mode != 4 && r.Intn(3) == 0 {
+	if mode < 4 && r.Intn(3) == 0 {
 		gcIdx = 1 + r.Intn(nEv)
 	}
 	// a few hot clients so that buckets actually run dry
@@ -534,7 +549,9 @@ func c15genCase(r *rand.Rand, thorough bool) (string, string) {
 				t += int64(r.Intn(3)) * 1_000_000_000
 			case 1:
 				t += int64(r.Intn(1024)) * 1953125
-			case 2, 4:
+			case 6:
+				t += int64(r.Intn(64)) * 1953125
+			case 2, 4, 5:
 				t += r.Int63n(2_000_000_000/int64(lim) + 2)
 				if r.Intn(20) == 0 {
 					t += r.Int63n(3_000_000_000)
@@ -559,6 +576,15 @@ func c15genCase(r *rand.Rand, thorough bool) (string, string) {
 		tt := t
 		if mode == 4 && r.Intn(8) == 0 && tt > 0 {
 			tt -= r.Int63n(tt%1_000_000_000 + 1) // out of order time stamp
+		}
+		if mode >= 5 {
+			tt -= delays[r.Intn(len(delays))]
+			if tt < 0 {
+				tt = 0
+			}
+			if r.Intn(3) != 0 {
+				a = pool[0] // mostly one client: its bucket is the one under stress
+			}
 		}
 		evs = append(evs, c15ev{addr: a, t: tt, n: n})
 	}
